@@ -5,11 +5,12 @@ import ws
 
 PATHS = ['a', 'b', 'd/c', 'd/e']
 
-# Concrete spellings of the abstract paths.  Variant 1 uses a name that is not valid UTF-8 and one that
-# needs quoting in patch headers (a blank); str with surrogate escapes stands for the raw bytes.
+# Concrete spellings of the abstract paths.  Variant 1 uses a name that is not valid UTF-8, one that
+# needs quoting in patch headers (a blank), and puts the abstract directory d two levels deep (d/s: the
+# two directories exist together); str with surrogate escapes stands for the raw bytes.
 NAME_VARIANTS = [
     {'a': 'a', 'b': 'b', 'd/c': 'd/c', 'd/e': 'd/e'},
-    {'a': 'a.c', 'b': b'b\xe9.txt'.decode('utf-8', 'surrogateescape'), 'd/c': 'd/c x.h', 'd/e': 'd/e'},
+    {'a': 'a.c', 'b': b'b\xe9.txt'.decode('utf-8', 'surrogateescape'), 'd/c': 'd/s/c x.h', 'd/e': 'd/s/e'},
 ]
 NAMES = NAME_VARIANTS[0]
 
@@ -230,7 +231,13 @@ def compare(snap, scenario, out, cfg, rc, stderr, first=0, names_before=()):
             if exp[p][1] is not None and files[p][1] != exp[p][1]:
                 probs.append(('backup-mode' if p.startswith('.pc/') else 'tree', 'mode of %s: %o, reference %o' % (p, files[p][1], exp[p][1])))
     # directories of the working tree: exist iff they hold a file
-    want_dirs = {os.path.dirname(p) + '/' for p in files if '/' in p and not p.startswith('.pc/')}
+    want_dirs = set()
+    for p in files:
+        if not p.startswith('.pc/'):
+            d = os.path.dirname(p)
+            while d:
+                want_dirs.add(d + '/')
+                d = os.path.dirname(d)
     got_dirs = {d for d in dirs if not d.startswith('.pc')}
     if want_dirs != got_dirs:
         probs.append(('tree', 'directories %s, expected %s' % (sorted(got_dirs), sorted(want_dirs))))
